@@ -12,7 +12,7 @@ from simtz import clientsim as cs
 from simtz.runner import rng_for
 
 ID = 'C25'
-QUICK_RUNS = 4000
+QUICK_RUNS = 3000
 QUICK_BUDGET_S = 90
 CHUNK = 50
 CHUNK_TIMEOUT_S = 600
@@ -66,8 +66,11 @@ FAULT_KINDS = ['transient', 'preval', 'latency', 'transient_cap']
 def gen_contents(rng, n):
     specs = []
     for _ in range(n):
-        k = rng.choice(['transaction', 'transaction', 'transaction', 'delegation', 'origination', 'register_global_constant'])
+        k = rng.choice(['transaction', 'transaction', 'transaction', 'delegation', 'origination', 'register_global_constant', 'contract_call'])
         s = {'kind': k}
+        if k == 'contract_call':
+            s['arg'] = rng.choice([0, 1, 63, 64, 10**9])
+            s['entrypoint'] = rng.choice(['increment', 'decrement'])
         if k == 'transaction':
             if rng.random() < 0.3:
                 s['dest'] = cs.KT
